@@ -53,13 +53,13 @@ Case(desc, opts, field, hash, cc) == [desc |-> desc, opts |-> opts, field |-> fi
 QuickCases == <<
   Case(LinM(4, 20),    Opt(16, 8, 0, 1, 4, 7, 0, 0, 1, 1),  "f64",  "blake3_256", 1),
   Case(Aux2(3, 2, 2),  Opt(14, 16, 0, 2, 4, 3, 0, 1, 1, 1), "f64",  "rp64_256", 1),
-  Case(Quart(5),       Opt(10, 8, 0, 3, 2, 0, 2, 0, 1, 1),  "f62",  "rp62_248", 3)
+  Case(Quart(5),       Opt(10, 8, 0, 3, 2, 0, 2, 0, 1, 1),  "f62",  "rp62_248", 3),
+  Case(Lin2(4),        Opt(20, 8, 0, 1, 4, 7, 1, 1, 1, 1),  "f128", "blake3_256", 1)
 >>
 MoreCases == <<
   Case(Mul2(4, MetaBytes(35)), Opt(14, 8, 4, 2, 2, 3, 1, 2, 1, 1), "f128", "sha3_256", 1),
   Case(Aux2(4, 2, 2),  Opt(14, 8, 3, 1, 8, 1, 0, 0, 2, 4),  "f64",  "rpjive64_256", 1),
   Case(Mul2(5, <<>>),  Opt(20, 4, 0, 1, 2, 1, 0, 0, 1, 1),  "f64",  "blake3_192", 1),
-  Case(Lin2(4),        Opt(20, 8, 0, 1, 4, 7, 1, 1, 1, 1),  "f128", "blake3_256", 1),
   Case(Aux2(4, 3, 1),  Opt(14, 8, 0, 3, 4, 3, 2, 2, 4, 2),  "f64",  "sha3_256", 1),
   Case(Cube(5),        Opt(14, 4, 2, 2, 2, 1, 0, 2, 1, 1),  "f62",  "blake3_256", 2),
   Case(Cube(5),        Opt(10, 8, 0, 2, 4, 1, 1, 0, 1, 1),  "f62",  "rp62_248", 2),
